@@ -442,6 +442,10 @@ def gen_op(rng, t, cfg, ids_seen):
             n_ = rng.choice(tails)
             cfg["_plan"] = [("undo", None), ("cut_above", n_), ("link_from_other_track", n_),
                             ("delete", next(iter(g.predecessors(n_))))]
+        if cfg["seg"] and n_ in g and rng.random() < 0.3:
+            # "the pixels of the node, if known": the caller hands over exactly the node's own pixels of an array it
+            # has NOT painted - the same edit as without the argument
+            return "DN %d" % n_, (lambda: UserDeleteNode(t, n_, pixels=t.get_pixels(n_))), "delete_node"
         return "DN %d" % n_, (lambda: UserDeleteNode(t, n_)), "delete_node"
     if kind == "sw":
         a_, b_ = pick(), pick()
@@ -639,6 +643,11 @@ def gen_toggle(rng, t, cfg):
         if es:
             cfg["_plan"] = [("erase_overlap", rng.choice(es)), ("en", (["iou"], 1))]
             return planned_op(rng, t, cfg, ("dis", ["iou"]))
+    if rng.random() < 0.06:
+        # the empty subset ("the newly ticked features", none ticked): nothing may be computed or switched
+        if rng.random() < 0.6:
+            return "EN - 1 - -", (lambda: t.enable_features([])), "enable"
+        return "DIS -", (lambda: t.disable_features([])), "disable"
     off = [k for k in dom if k not in act]
     if off and rng.random() < 0.2:
         k = rng.choice(off)
